@@ -47,6 +47,10 @@ def oracle_time(terms, y, n, sec):
     return G.sixty(py_idx), month_pillar(py_idx, k)
 
 
+def jie_days_of_year(tm, y):
+    return set(tn for (ty, ti), (tn, ts) in tm.items() if ti % 2 == 1 and CAL.from_jdn(tn)[0] == y)
+
+
 def run(ctx):
     ctx.exhaustive = False
     ctx.exhaustive_note = 'complete over every day of a scenario year (9 placements) and all critical instants; not over all real dates'
@@ -165,6 +169,52 @@ def run(ctx):
     table(ctx, 'PETE-SCENARIO', 'SixtyCycleHour::from_solar_time', [(si, n, s) for si in range(len(scen_t)) for (n, s) in times_by_scen[si]], run_time, orc_time,
           'instant view: the same rule applied at the exact term instant (critical instants around all 12 Jie of a year, 3 new-year positions)',
           lambda a: '%s %s %02d:%02d:%02d' % (scen_t[a[0]][0], '%d-%02d-%02d' % CAL.from_jdn(a[1]), a[2] // 3600, a[2] // 60 % 60, a[2] % 60), fn_site(p, 'SixtyCycleHour::from_solar_time'))
+
+    # 4b. stepping an instant-level value: x.next(n) must be the value of the instant n seconds later (also across a Jie instant inside one civil day)
+    def hstep(args):
+        n, s0, dn = args
+        name, tm, months = scen_t[1]
+        cm = CalModel(I, tm, months)
+        h = I.call('SixtyCycleHour::from_solar_time', [cm.solar_time_n(n, s0)])
+        r = t.m(h, 'next', dn)
+        st = t.m(r, 'get_solar_time')
+        return (t.name(t.m(r, 'get_year')), t.name(t.m(r, 'get_month')), t.name(t.m(r, 'get_day')), cm.n_of(t.m(st, 'get_solar_day')) * 86400 + py(t.m(st, 'get_hour')) * 3600 + py(t.m(st, 'get_minute')) * 60 + py(t.m(st, 'get_second')))
+
+    def hstep_orc(args):
+        n, s0, dn = args
+        a = n * 86400 + s0 + dn
+        n2, s2 = divmod(a, 86400)
+        yp, mp = oracle_time(scen_t[1][1], CAL.from_jdn(n2)[0], n2, s2)
+        dp = G.sixty((n2 + 49 + (1 if s2 >= 82800 else 0)) % 60)
+        return (yp, mp, dp, a)
+    hs = []
+    for (ty, ti), (tn, ts) in sorted(terms_t.items()):
+        if ti % 2 == 1 and CAL.from_jdn(tn)[0] == Y:
+            for s0 in (600, max(0, ts - 3600)):
+                for dn in (ts - s0 - 1, ts - s0, ts - s0 + 1, 7200, 36000, 80000, -7200, 86400 + 100):
+                    if s0 + dn >= -86400:
+                        hs.append((tn, s0, dn))
+    table(ctx, 'PETE-SCENARIO', 'SixtyCycleHour::next', hs, hstep, hstep_orc, 'stepping an instant-level value by n seconds gives the pillars of the instant n seconds later, also across a Jie instant within one civil day',
+          lambda a: '%s +%ds then next(%d)' % ('%d-%02d-%02d' % CAL.from_jdn(a[0]), a[1], a[2]), fn_site(p, 'SixtyCycleHour::next'))
+
+    def day_hours(n):
+        name, tm, months = scen_t[1]
+        cm = CalModel(I, tm, months)
+        d = I.call('SixtyCycleDay::from_solar_day', [cm.solar_day_n(n)])
+        out = []
+        for h in t.m(d, 'get_hours'):
+            out.append((t.name(t.m(h, 'get_year')), t.name(t.m(h, 'get_month'))))
+        return out
+
+    def day_hours_orc(n):
+        out = []
+        for k in range(12):
+            a = (n - 1) * 86400 + 82800 + k * 7200
+            n2, s2 = divmod(a, 86400)
+            out.append(oracle_time(scen_t[1][1], CAL.from_jdn(n2)[0], n2, s2))
+        return out
+    table(ctx, 'PETE-SCENARIO', 'SixtyCycleDay::get_hours:pillars', sorted(jie_days_of_year(terms_t, Y))[:12], day_hours, day_hours_orc,
+          'the 12 double-hours listed for a day containing a Jie carry the year/month pillars of their own start instants', lambda n: '%d-%02d-%02d' % CAL.from_jdn(n), fn_site(p, 'SixtyCycleDay::get_hours'))
 
     # 5. the two views agree on every day that contains no Jie (noon sample of every day of the year)
     jie_days = set(tn for (ty, ti), (tn, ts) in terms_t.items() if ti % 2 == 1)
